@@ -35,6 +35,19 @@ const LINKS_SIZE: usize = std::mem::size_of::<Links>();
 /// Maximum node size (with full tower)
 const MAX_NODE_SIZE: usize = std::mem::size_of::<Node>() + (MAX_HEIGHT - 1) * LINKS_SIZE;
 
+/// Worst-case padding of one node allocation (nodes are 8-byte aligned).
+const MAX_NODE_PADDING: usize = 7;
+
+/// Arena bytes a fresh skiplist already occupies: the reserved null offset
+/// plus the head and tail sentinels.
+pub(crate) const EMPTY_FOOTPRINT: usize = 1 + 2 * (MAX_NODE_SIZE + MAX_NODE_PADDING);
+
+/// Upper bound of the arena bytes that must be free for one entry to be
+/// inserted (the allocator requires room for the tallest tower).
+pub(crate) const fn max_entry_footprint(key_len: usize, value_len: usize) -> usize {
+	MAX_NODE_SIZE + MAX_NODE_PADDING + key_len + value_len
+}
+
 /// Precomputed probabilities for random height generation
 fn probabilities() -> &'static [u32; MAX_HEIGHT] {
 	static PROBABILITIES: std::sync::OnceLock<[u32; MAX_HEIGHT]> = std::sync::OnceLock::new();
